@@ -192,6 +192,8 @@ def compare_pos(cres, sres, pos, out_shape, opname=""):
 
 
 SCALES = [1, 2000, 0.001, -3, 1500, -0.5]
+QSCALES = [1, 30, 0.05, -3, 20, -0.5]     # matrices of quadrics and transformations: moderate factors (absolute tolerances on
+                                          # quadratic / cubic expressions of the entries are by design not scale free)
 SCALABLE = ("point2", "line2", "point3", "plane3", "line3", "quadric2", "trafo2", "cpoint2", "cpoint3", "cline2", "cplane3", "cline3")
 
 
@@ -231,7 +233,8 @@ def replay_one(d, mixed):
             pool, mk = PL[kind]
             els = [pool[(i - 1) % len(pool)] for i in r["contents"][a]]
             if mixed and kind in SCALABLE:
-                els = [_rescaled(x, SCALES[(k + 2 * a) % len(SCALES)]) for k, x in enumerate(els)]
+                tab = QSCALES if kind in ("quadric2", "trafo2") else SCALES
+                els = [_rescaled(x, tab[(k + 2 * a) % len(tab)]) for k, x in enumerate(els)]
             singles.append(els)
             if shape == ():
                 args.append(els[0])
@@ -245,7 +248,7 @@ def replay_one(d, mixed):
         case = {"op": r["op"], "shapes": r["shapes"], "contents": r["contents"]}
         site = r['op'] + ("/mixed-scales" if mixed else "")
         if mixed:
-            case["scales"] = "element k of argument a is multiplied by SCALES[(k + 2a) % 6], SCALES = " + str(SCALES)
+            case["scales"] = "element k of argument a is multiplied by S[(k + 2a) % 6], S = " + str(SCALES) + " (quadric / transformation matrices: " + str(QSCALES) + ")"
         try:
             with np.errstate(all="ignore"):
                 cres = fn(*args)
